@@ -766,12 +766,23 @@ def _load(e, prev=None):
         vp = _build(prev)[0] if prev is not None else None
         if vp is not None:
             cn = d.add_const(vp)
-            for f in (lambda: d.hugr[cn].op.port_kind(OutPort(cn, 0)), lambda: d.hugr.to_json(), lambda: d.hugr[cn].op.num_out):
+            for f in (lambda: d.hugr[cn].op.port_kind(OutPort(cn, 0)), lambda: d.hugr.to_json(), lambda: d.hugr[cn].op.num_out,
+                      lambda: d.hugr.port_kind(OutPort(cn, 0)), lambda: d.hugr.port_type(OutPort(cn, 0)),
+                      lambda: d.hugr.render_dot()):
                 try:
                     f()
                 except Exception:  # noqa: BLE001
                     pass
-            d.hugr[cn].op.val = v
+            # the node gets its final constant in one of three ways: the value assigned in place, the operation replaced
+            # (what a constant-folding pass does), or the node deleted and a new constant added (which reuses the index)
+            mode = len(repr(e)) % 3
+            if mode == 0:
+                d.hugr[cn].op.val = v
+            elif mode == 1:
+                d.hugr[cn].op = ops.Const(v)
+            else:
+                d.hugr.delete_node(cn)
+                cn = d.add_const(v)
             load_node = d.load(cn)
         else:
             load_node = d.load(v)
@@ -1093,6 +1104,13 @@ def _oracle_load(e, prev=None):
         return fails
     if not isinstance(ck, tys.ConstKind) or B.type_to_spec(ck.ty) != want:
         fails.append(Failure("Const.port_kind", "static-port-not-the-reported-type", repr(ck)[:200]))
+    try:
+        hk = h.port_kind(OutPort(cn, 0))  # the same question asked of the graph (seeded change C14-14: memoised per index)
+    except Exception as ex:  # noqa: BLE001
+        fails.append(Failure("Hugr.port_kind", "raises", type(ex).__name__))
+        return fails
+    if not isinstance(hk, tys.ConstKind) or B.type_to_spec(hk.ty) != want:
+        fails.append(Failure("Hugr.port_kind", "static-port-not-the-reported-type", repr(hk)[:200]))
     try:
         lt = B.type_to_spec(load_op.type_)
         sig = load_op.outer_signature()
